@@ -5,6 +5,11 @@ import json, os
 ROOT = os.path.dirname(os.path.dirname(os.path.abspath(__file__)))
 
 CHECKS = {
+ "C01": dict(
+  technique="runtime monitor: reference-model oracle (independent big-step evaluator over the core-language AST) comparing the value read back at the data-trait boundary after executing the real pipeline; shadow-stack agreement checked on the way",
+  text="Every core-language AST with at most 3 nodes (4 thorough) over 12 atoms, 25 binary and 10 unary operators, lists, nested expressions, conditionals, separators and side-effect blocks x 3 (10) input values, 27 bounded reapply loops, hand-written regression programs and 30000 (1.5 million) random programs up to several hundred nodes are printed with minimal parentheses, compiled and run to completion on both stores under a scripted host; the current value is read back through getters and compared strictly with the reference evaluator's value.",
+  note="trusts the S-rules implemented in eval.rs; runs touching semantics the rules do not pin are skipped (counted); the printer is self-checked against the reference parser on every case",
+  design="DESIGN.md §3.3, §3.4, §5 C01"),
  "C02": dict(
   technique="runtime monitor: reference-model oracle (independent precedence-climbing parser over the pinned operator table) + metamorphic oracle (fully parenthesised text parses to the same tree modulo group nodes)",
   text="Every ordered pair of 50 binary forms, 9 prefix and 4 suffix operators in 8 pair shapes, triples a B b B c B d (every tenth quick, all 125000 thorough), every unary operator around the middle operand of every binary pair, each in a spaced and a tight layout, and random deeper expressions with groups and nested expressions: the real parse tree must equal the reference parser's tree, and the fully parenthesised spelling must parse to the same tree once plain group nodes are removed.",
